@@ -303,7 +303,36 @@ pub struct Snap
     /// Some(k): only the first k bytes of that write reached the disk
     pub torn: Option<usize>,
     pub in_cmd: bool,
+    /// the mutation, e.g. "write .ruler/history/<name>"
+    pub desc: String,
     pub fs: Fs,
+}
+
+/// path with content-hash names abstracted, so that descriptions are stable
+pub fn class_of(path: &str) -> String
+{
+    if let Some(rest) = path.strip_prefix(".ruler/history/")
+    {
+        return format!(".ruler/history/<rule>{}", if rest.len() > 43 { &rest[43..] } else { "" });
+    }
+    if let Some(rest) = path.strip_prefix(".ruler/cache/")
+    {
+        return format!(".ruler/cache/<hash>{}", if rest.len() > 43 { &rest[43..] } else { "" });
+    }
+    path.to_string()
+}
+
+pub fn describe_mut(m: &Mutation) -> String
+{
+    match &m.kind
+    {
+        MutKind::CreateFile { .. } => format!("create_file {}", class_of(&m.path)),
+        MutKind::Write { .. } => format!("write {}", class_of(&m.path)),
+        MutKind::Rename { to, .. } => format!("rename {} -> {}", class_of(&m.path), class_of(to)),
+        MutKind::SetExec(x) => format!("set_is_executable({}) {}", x, class_of(&m.path)),
+        MutKind::CreateDir => format!("create_dir {}", class_of(&m.path)),
+        MutKind::Remove { .. } => format!("remove {}", class_of(&m.path)),
+    }
 }
 
 pub type CmdMonitor = Arc<dyn Fn(&Fs, &str) -> Option<String> + Send + Sync>;
@@ -372,11 +401,7 @@ pub const NO_TASK: usize = usize::MAX;
 
 pub fn current_task() -> usize
 {
-    match shuttle::current::get_current_task()
-    {
-        Some(t) => usize::from(t),
-        None => NO_TASK,
-    }
+    crate::sched::current_task_id().unwrap_or(NO_TASK)
 }
 
 fn is_shared(cfg: &Cfg, path: &str) -> bool
@@ -416,7 +441,8 @@ impl Inner
             if self.cfg.snapshots && ok
             {
                 let idx = self.log.muts.len() - 1;
-                self.log.snaps.push(Snap { after_mut: idx, torn: None, in_cmd, fs: self.fs.clone() });
+                let desc = describe_mut(&self.log.muts[idx]);
+                self.log.snaps.push(Snap { after_mut: idx, torn: None, in_cmd, desc, fs: self.fs.clone() });
             }
         }
     }
@@ -460,7 +486,7 @@ impl Inner
                 }
                 let idx = self.log.muts.len();
                 let in_cmd = self.in_cmd;
-                self.log.snaps.push(Snap { after_mut: idx, torn: Some(k), in_cmd, fs });
+                self.log.snaps.push(Snap { after_mut: idx, torn: Some(k), in_cmd, desc: format!("torn write ({} of {} bytes) {}", k, n, class_of(&path)), fs });
             }
         }
         if let Some(f) = self.fs.find_by_id(id)
